@@ -8,6 +8,7 @@ import LitexProofs.Stream.HandshakePacket
 import LitexProofs.Stream.HandshakePacketFifo
 import LitexProofs.Stream.HandshakePacketFifoBuffered
 import LitexProofs.Stream.HandshakeArbiter
+import LitexProofs.Stream.HandshakeArbiter2
 import LitexProofs.Stream.HandshakePacketizer
 import LitexProofs.Stream.HandshakePacketizerU
 import LitexProofs.Stream.HandshakeLive
@@ -56,9 +57,9 @@ import LitexProofs.Stream.HandshakeGearboxLive
 
   packet.py
   | Status                        | status                               | —                         | status_first_last, status_outputs     | —    | A0,B0 `status`                      |
-  | Arbiter                       | arbiter n                            | arbiter_stable            | arbiter_progress, no_starvation n     | —    | AP,BP `arbiter n`                   |
+  | Arbiter                       | arbiter n                            | arbiter_stable            | arbiter_progress, _progress_subset 2, no_starvation n | — | AP,BP `arbiter n`       |
   | Dispatcher                    | dispatcher m oneHot                  | (comb: as Demultiplexer)  | dispatcher_progress 1                 | —    | AP,BP `dispatcher m oh`             |
-  | Packetizer (aligned)          | packetizer c                         | packetizer_stable         | packetizer_no_livelock 1              | —    | AP,BP `packetizer …`                |
+  | Packetizer (aligned)          | packetizer c                         | packetizer_stable         | packetizer_no_livelock 1, packetizer_accepts W+1 | — | AP,BP `packetizer …`          |
   | Depacketizer (aligned)        | depacketizer c                       | depacketizer_stable       | depacketizer_no_livelock W+1          | —    | AP,BP `depacketizer …`              |
   | Packetizer, any header length | packetizer c                         | packetizer_stable_partial (FlushHeld; neg. witness) | packetizer_no_livelock_any 1; sink service: neg. witness (C16 single-beat) | — | AP,BP |
   | Depacketizer unaligned        | depacketizer c                       | OPEN (monitors, UOk dom.) | OPEN (monitors; open C16 findings)    | —    | AP,BP                               |
@@ -1057,6 +1058,29 @@ theorem arbiter_progress (n : Nat) (hn : 2 ≤ n) (pre : List Litex.Packet.ArbIn
       ((Litex.Packet.arbiter n).run pre).grant false = true :=
   Litex.Packet.arbiter_moves n _ (Litex.Packet.arbiter_grant_lt n hn pre) i hv hr
 
+/-- Progress with only SOME masters offering: if in a cycle at least one master requests (offers, or is inside a
+    packet) and every requesting master offers in the following cycle (no bubbles inside packets) with the slave
+    ready, a beat is transferred in that following cycle at the latest — from every reachable state: K = 2, the bound
+    the harness measures for the subset modes. -/
+theorem arbiter_progress_subset (n : Nat) (hn : 2 ≤ n) (pre : List Litex.Packet.ArbIn) (i i' : Litex.Packet.ArbIn)
+    (hr' : i'.ready = true)
+    (hsome : ∃ k, k < n ∧ Litex.Packet.arbRequest ((Litex.Packet.arbiter n).run pre) i k = true)
+    (hkeep : ∀ j, j < n → Litex.Packet.arbRequest ((Litex.Packet.arbiter n).run pre) i j = true →
+      (i'.masters.getD j Litex.Packet.Beat.idle).valid = true) :
+    ((Litex.Packet.arbiter n).out ((Litex.Packet.arbiter n).next ((Litex.Packet.arbiter n).run pre) i) i').slave.valid = true ∧
+    ((Litex.Packet.arbiter n).out ((Litex.Packet.arbiter n).next ((Litex.Packet.arbiter n).run pre) i) i').readys.getD
+      ((Litex.Packet.arbiter n).next ((Litex.Packet.arbiter n).run pre) i).grant false = true :=
+  Litex.Packet.arbiter_moves_next n hn _ (Litex.Packet.arbiter_grant_lt n hn pre) i i' hr' hsome hkeep
+
+/-- Non-vacuity and tightness (3 masters, only master 2 offers, from reset): nothing moves in the first cycle (the
+    grant is at master 0), the beat is transferred in the second. -/
+example :
+    let i : Litex.Packet.ArbIn := { masters := [⟨false, 0, false⟩, ⟨false, 0, false⟩, ⟨true, 3, true⟩], ready := true }
+    ((Litex.Packet.arbiter 3).out (Litex.Packet.arbiter 3).init i).slave.valid = false ∧
+    ((Litex.Packet.arbiter 3).out ((Litex.Packet.arbiter 3).next (Litex.Packet.arbiter 3).init i) i).slave.valid = true ∧
+    ((Litex.Packet.arbiter 3).out ((Litex.Packet.arbiter 3).next (Litex.Packet.arbiter 3).init i) i).readys =
+      [false, false, true] := by decide
+
 /-- No starvation: if every master offers single-beat packets and the slave is ready, master `k` owns the grant after
     exactly `dist(grant, k) ≤ n − 1` cycles and is served in the cycle that follows: every master is served within the
     round-robin bound of `n` cycles (the bound the harness measures from every explored state). -/
@@ -1149,6 +1173,11 @@ theorem packetizer_no_livelock (c : Litex.Packet.PkCfg) (ha : c.aligned = true) 
   (Litex.Packet.packetizer_measure c ha).delivers
     (by simp [Litex.Packet.pkInv, Litex.Packet.packetizer, Litex.Packet.PkState.reset])
 
+/-- The aligned Packetizer serves its sink: the `W` header words, then every cooperative cycle accepts a beat. -/
+theorem packetizer_accepts (c : Litex.Packet.PkCfg) (ha : c.aligned = true) (hW : 1 ≤ c.W) :
+    AcceptsWithin (Litex.Packet.packetizer c) (c.W + 1) :=
+  Litex.Packet.packetizer_acceptsWithin c ha hW
+
 theorem depacketizer_stable (c : Litex.Packet.PkCfg) (ha : c.aligned = true) (hW : 1 ≤ c.W) :
     KeepsContract (Litex.Packet.depacketizer c) :=
   keepsContract_of_stepStable (Litex.Packet.depacketizer_stepStable c ha hW)
@@ -1177,10 +1206,13 @@ example :
   theorem depacketizer_unaligned_stable_open :
       inside C16's `UOk` producer domain, with the padding bytes of a `last` beat masked, the unaligned
       Depacketizer keeps the contract (harness: exhaustive dw16/H3, random dw32/H6, dw64/H11).
-  theorem packetizer_accepts_open : the aligned Packetizer serves its sink: after the W header words every
-      cooperative cycle accepts a beat (AcceptsWithin (W + 1)).
-  theorem arbiter_progress_subset_open : with only some masters offering (and every master that has an open packet
-      among them) a transfer happens within 2 cycles (measured bound K = 2).
+  (session 2: packetizer_accepts is proved.)
+  (session 2: arbiter_progress_subset is proved.)
+  theorem pipeline_handshake_every_cycle_open : ProgressWithin (stages z l) 1 for every legal stage list (measured
+      K = 1 on every explored instance; needs cross-stage invariants such as "PipeValid empty → FIFO before it holds
+      ≤ 1 word"; proved for chain3 and for the single stages only).
+  theorem packetizer_unaligned_accepts_open : sink service of the unaligned Packetizer outside the open C16 findings
+      (the full statement is refuted by the negative witness next to packetizer_no_livelock_any).
 -/
 
 /-! ## packet.Status -/
